@@ -171,6 +171,18 @@ CHECKS["C03"] = dict(
     design_ref="DESIGN.md#c03",
 )
 
+CHECKS["C09"] = dict(
+    category="exploration",
+    text="Hand-built cases with hostile values (quotes, backslashes, $, backticks, ; & | < > ( ), spaces, tabs, empty values, leading "
+    "@ and dashes, newlines, non-ASCII in URL and payload) for 6 methods and JSON/text/form/multipart bodies are sent through the real "
+    "transport to a recording API (request A); the exact string the failure report prints (as_curl_command with the sent request's "
+    "headers, sanitisation off) is executed by `sh -c` with the real curl (request B); A and B are compared on method, raw URL, body "
+    "bytes and headers.",
+    note="Header values are ASCII and payloads text, as the statement says; client-added headers and the test-case id are ignored.",
+    technique="runtime monitoring: round-trip differential (sent request vs request produced by executing the printed command)",
+    design_ref="DESIGN.md#c09",
+)
+
 NOT_APPLICABLE = {}
 
 
